@@ -591,7 +591,7 @@ func (x *Exec) call(a *activation, b *ssa.BasicBlock, i int, in *ssa.Call, fr *f
 			return cont
 		}
 	}
-	synthetic := callee.Pkg == nil && callee.Synthetic != "" && callee.Blocks != nil && (strings.Contains(callee.Synthetic, "bound method") || strings.Contains(callee.Synthetic, "wrapper"))
+	synthetic := callee.Pkg == nil && callee.Synthetic != "" && callee.Blocks != nil && (strings.Contains(callee.Synthetic, "bound method") || strings.Contains(callee.Synthetic, "wrapper") || strings.Contains(callee.Synthetic, "thunk"))
 	if (((callee.Pkg == x.c.SLib && !x.cli) || (x.cli && callee.Pkg == x.c.SCLI)) && callee.Blocks != nil && !strings.HasSuffix(x.c.file(callee.Pos()), "_string.go")) || synthetic {
 		// inline
 		x.runUp(callee, args, h, p, &stackLink{fr: fr, up: a.up}, func(rets []AV, h2 *Heap, p2 pathInfo, fin *frame) {
